@@ -61,6 +61,9 @@ func (g *Gen) frameEnv(f *Frame, st *State, results []Term) *Env {
 			env.vars[p.Name()] = Arg{loc: l, t: Term{T: p.Type()}}
 		} else if t, ok := f.paramEntry[p.Name()]; ok {
 			env.vars[p.Name()] = Arg{t: t}
+		} else if t, ok := f.vals[p]; ok {
+			// an inlined callee: its parameters are the argument values
+			env.vars[p.Name()] = Arg{t: t}
 		}
 	}
 	for _, p := range f.fn.FreeVars {
@@ -94,6 +97,12 @@ func (g *Gen) frameEnv(f *Frame, st *State, results []Term) *Env {
 				env.vars[name] = Arg{t: t}
 			}
 		} else if t, ok := f.vals[d.v]; ok {
+			if d.dom {
+				phi := d.v.(*ssa.Phi)
+				if f.curBlock == nil || !phi.Block().Dominates(f.curBlock) {
+					continue
+				}
+			}
 			env.vars[name] = Arg{t: t}
 		}
 	}
@@ -1376,6 +1385,7 @@ func (env *Env) tryResolveType(e ast.Expr) (t types.Type) {
 type dbgName struct {
 	v    ssa.Value
 	addr bool
+	dom  bool // v is the phi that merges all assignments of the name: valid only where its block dominates
 }
 
 // debugNames maps the source name of a local variable to the SSA value it denotes, for variables that
@@ -1390,6 +1400,9 @@ func (g *Gen) debugNames(fn *ssa.Function) map[string]dbgName {
 	m := map[string]dbgName{}
 	bad := map[string]bool{}
 	objOf := map[string]types.Object{}
+	allVals := map[string][]ssa.Value{}
+	anyAddr := map[string]bool{}
+	shadow := map[string]bool{}
 	for _, b := range fn.Blocks {
 		for _, ins := range b.Instrs {
 			dr, ok := ins.(*ssa.DebugRef)
@@ -1416,18 +1429,87 @@ func (g *Gen) debugNames(fn *ssa.Function) map[string]dbgName {
 					x, isAddr = a, true
 				}
 			}
+			allVals[n] = append(allVals[n], x)
+			if isAddr {
+				anyAddr[n] = true
+			}
 			if prev, ok := m[n]; ok {
+				if objOf[n] != dr.Object() {
+					shadow[n] = true
+				}
 				if prev.v != x || prev.addr != isAddr || objOf[n] != dr.Object() {
 					bad[n] = true
 				}
 				continue
 			}
-			m[n] = dbgName{x, isAddr}
+			m[n] = dbgName{v: x, addr: isAddr}
 			objOf[n] = dr.Object()
 		}
 	}
 	for n := range bad {
 		delete(m, n)
+		// a variable assigned on several paths and merged by one phi (x := a; if c { x = b }): the name denotes the
+		// merging phi wherever that phi's block dominates
+		if shadow[n] {
+			continue
+		}
+		if anyAddr[n] {
+			// an addressable local (x := f(); ... x.field ...): the definition is recorded as a value, the uses through
+			// the variable's cell - the name denotes the cell
+			var cell *ssa.Alloc
+			cells := 0
+			for _, v := range allVals[n] {
+				if a, ok := v.(*ssa.Alloc); ok && a.Comment == n && a != cell {
+					cell = a
+					cells++
+				}
+			}
+			if cells == 1 {
+				m[n] = dbgName{v: cell, addr: true}
+			}
+			continue
+		}
+		var cands []*ssa.Phi
+		for _, v := range allVals[n] {
+			phi, ok := v.(*ssa.Phi)
+			if !ok {
+				continue
+			}
+			reach := map[ssa.Value]bool{phi: true}
+			var walk func(p *ssa.Phi, d int)
+			walk = func(p *ssa.Phi, d int) {
+				if d > 6 {
+					return
+				}
+				for _, e := range p.Edges {
+					if !reach[e] {
+						reach[e] = true
+						if ep, ok := e.(*ssa.Phi); ok {
+							walk(ep, d+1)
+						}
+					}
+				}
+			}
+			walk(phi, 0)
+			all := true
+			for _, o := range allVals[n] {
+				if !reach[o] {
+					all = false
+				}
+			}
+			dup := false
+			for _, c := range cands {
+				if c == phi {
+					dup = true
+				}
+			}
+			if all && !dup {
+				cands = append(cands, phi)
+			}
+		}
+		if len(cands) == 1 {
+			m[n] = dbgName{v: cands[0], dom: true}
+		}
 	}
 	g.dbgCache[fn] = m
 	return m
